@@ -17,6 +17,9 @@ def get(name):
     elif name == "C10":
         from .engine_curve import CurveEngineC10
         e = CurveEngineC10()
+    elif name == "C12":
+        from .engine_hash import HashWalkEngine
+        e = HashWalkEngine()
     else:
         raise KeyError(name)
     _cache[name] = e
